@@ -48,3 +48,7 @@ def run(ctx, rep, pid='C01'):
     from . import shared, c11 as _c11
     shared.include(ctx, rep, _c11.run, {'R11.3', 'R11.4', 'R11.7'}, why='every reported hour becomes a valid clock time (minutes from the same hour, wraps, bounded operands)')
 
+    # the Julian Day of local midnight: the GMT offset enters as exactly -gmt/24 days (R20.1) - an offset quantised to minutes or
+    # hours shifts the instant for which the transit is solved
+    from . import c20 as _c20
+    shared.include(ctx, rep, _c20.run, {'R20.1'}, why='the transit is solved for the instant the GMT offset designates')
